@@ -16,6 +16,7 @@
 -/
 import Lumina.Proofs.FetchRange
 import Lumina.Props.C18
+import Lumina.Model.SyncerGate
 
 namespace Lumina.Props.C24
 open Lumina.Model.Ranges hiding Inv
@@ -166,6 +167,137 @@ theorem nextBatch_spec {stored pruned : Ranges} (hs : RInv stored) (hp : RInv pr
     · rcases (m1 x).1 hx with hx | hx
       · have := h2 x hx; omega
       · have := h1 x hx; omega
+
+
+/-- clause (d) in Prop form: the batch lies above every synced height, or the height right above
+    it is synced -/
+theorem fetch_range_anchor {synced : Ranges} (hi : RInv synced) (head limit : Nat) (hh : head ≤ U64_MAX) :
+    ∃ b, calculateRangeToFetch head synced limit = .ok b ∧
+      (b.1 ≤ b.2 → (∀ x, mem synced x → x < b.1) ∨ mem synced (b.2 + 1)) := by
+  obtain ⟨b, e, hf⟩ := calc_spec hi head limit hh
+  refine ⟨b, e, fun hne => ?_⟩
+  have hnlt : ¬ b.2 < b.1 := by omega
+  have hmem : ∀ c ∈ failing head synced limit b, c = "head" := by
+    rcases hf with h | ⟨h, _⟩ <;> simp [h]
+  simp only [failing, hnlt, ↓reduceIte] at hmem
+  have k4 : clauseAnchor head synced b = true := by
+    by_cases c : clauseAnchor head synced b = true
+    · exact c
+    · have := hmem "anchor" (by simp [c]); exact absurd this (by decide)
+  rcases List.eq_nil_or_concat synced with rfl | ⟨ys, l, rfl⟩
+  · exact Or.inl (fun x hx => absurd hx (mem_nil x))
+  · rw [List.concat_eq_append] at hi k4 ⊢
+    have hlast : (ys ++ [l]).getLast? = some l := List.getLast?_concat
+    by_cases hb : behind head (ys ++ [l]) = true
+    · left
+      simp only [clauseAnchor, hb, ↓reduceIte, top_concat, beq_iff_eq] at k4
+      rintro x ⟨r, hr, h1, h2⟩
+      have := (inv_le_last hi r hr).2
+      omega
+    · right
+      have hb' : behind head (ys ++ [l]) = false := by simpa using hb
+      simp only [clauseAnchor, hb', Bool.false_eq_true, ↓reduceIte, hlast, beq_iff_eq] at k4
+      have hv := inv_validR hi (r := l) (by simp)
+      rw [k4]
+      exact ⟨l, by simp, Nat.le_refl _, hv.2.1⟩
+
+open Lumina.Model.SyncerGate in
+/-- **"so that inserting it extends stored data", at the level of `Worker::fetch_next_batch`
+    and of the ranges the stores really check.**  Whenever the fetch decision (all gates of
+    `fetch_next_batch`, after the C25 repair `339a537`) is to request a batch, that batch is
+    admitted by `check_insertion_constraints` of the STORED header ranges (not merely of
+    stored ∪ pruned), for every stored / pruned / sampled value satisfying `Inv`. -/
+theorem fetchDecision_request_insertable {slowMin : Nat} {i : GateIn} {r : Range}
+    (hs : RInv i.stored) (hp : RInv i.pruned) (hh : ∀ h, i.head = some h → h ≤ U64_MAX)
+    (hd : fetchDecision slowMin i = .ok (.request r)) :
+    ∃ p n, checkInsertionConstraints i.stored r = .ok (p, n) := by
+  unfold fetchDecision fetchDecisionWith at hd
+  by_cases c1 : i.ongoing = true
+  · simp [c1] at hd
+  by_cases c2 : (i.connectedPeers == 0) = true
+  · simp [c1, c2] at hd
+  cases hhead : i.head with
+  | none => simp [c1, c2, hhead] at hd
+  | some head =>
+    obtain ⟨synced, e1, i1, m1⟩ := add_spec hp hs
+    have hhd := hh head hhead
+    obtain ⟨b, e2, hmiss⟩ := fetch_range_missing_size i1 head i.batchSize hhd
+    obtain ⟨b', e2', hanch⟩ := fetch_range_anchor i1 head i.batchSize hhd
+    rw [e2] at e2'; cases e2'
+    simp only [c1, c2, hhead, e1, e2, Bool.false_eq_true, ↓reduceIte] at hd
+    by_cases c3 : Range.isEmpty b = true
+    · simp [c3] at hd
+    simp only [c3, Bool.false_eq_true, ↓reduceIte] at hd
+    have hne : b.1 ≤ b.2 := by simpa [Range.isEmpty] using c3
+    obtain ⟨hm, _, hb1⟩ := hmiss hne
+    cases hslow : slowSyncStop slowMin i b with
+    | error e => simp [hslow] at hd
+    | ok v =>
+      cases v with
+      | true => simp [hslow] at hd
+      | false =>
+        simp only [hslow] at hd
+        by_cases c4 : b.2 + 1 ≤ U64_MAX
+        · simp only [addU64, c4, ↓reduceIte, windowGate] at hd
+          have hvalid : Range.valid b = true := (valid_iff b).2 ⟨hb1, hne⟩
+          -- not sharing a height with the stored ranges: stored ⊆ synced
+          have hno : Lumina.Spec.C18.sharesHeight i.stored b = false := by
+            rw [← Bool.not_eq_true]
+            intro hsh
+            obtain ⟨h, hmem, h1, h2⟩ := (Lumina.Props.C18.sharesHeight_iff hs hne).1 hsh
+            exact hm h h1 h2 ((m1 h).2 (Or.inr hmem))
+          have hadm : ∀ (hpl : Lumina.Spec.C18.placementOk i.stored b = true),
+              ∃ p n, checkInsertionConstraints i.stored b = .ok (p, n) := by
+            intro hpl
+            apply (Lumina.Props.C18.constraints_ok_iff hs b (by omega)).2
+            simp [Lumina.Spec.C18.admitted, Lumina.Props.C18.validR_eq_valid, hvalid, hno, hpl]
+          by_cases c5 : contains i.stored (b.2 + 1) = true
+          · -- the upper neighbour is stored
+            by_cases c6 : i.inWindow (b.2 + 1) = true
+            · simp only [c5, c6, ↓reduceIte, Except.ok.injEq, Decision.request.injEq] at hd
+              subst hd
+              apply hadm
+              simp only [Lumina.Spec.C18.placementOk, Lumina.Spec.C18.touchesStored,
+                Lumina.Spec.C18.aboveStored, Bool.or_eq_true]
+              right; right
+              rw [member_iff]; exact (contains_iff_mem _ _).1 c5
+            · simp [c5, c6] at hd
+          · by_cases c7 : contains synced (b.2 + 1) = true
+            · simp [c5, c7] at hd
+            · simp only [c5, c7, Bool.false_eq_true, ↓reduceIte, Bool.and_false, Except.ok.injEq,
+                Decision.request.injEq] at hd
+              subst hd
+              -- the upper neighbour is not synced: the batch lies above everything synced
+              rcases hanch hne with habove | hnext
+              · apply hadm
+                simp only [Lumina.Spec.C18.placementOk, Bool.or_eq_true]
+                left; right
+                rw [Lumina.Props.C18.aboveHighest_iff hs]
+                intro h hmem
+                exact habove h ((m1 h).2 (Or.inr hmem))
+              · exact absurd ((contains_iff_mem _ _).2 hnext) c7
+        · simp [addU64, c4] at hd
+
+/-- stored 900..=1000, pruned 800..=899, head 1000, batch size 512, everything inside the window -/
+def prunedEdgeGate : Lumina.Model.SyncerGate.GateIn where
+  ongoing := false
+  connectedPeers := 1
+  head := some 1000
+  stored := [(900, 1000)]
+  pruned := [(800, 899)]
+  sampled := []
+  batchSize := 512
+  slowSync := none
+  inWindow := fun _ => true
+
+open Lumina.Model.SyncerGate in
+/-- before the C25 repair the decision could request a batch the store then rejects
+    (288..=799, `NoAdjacentNeighbors`); the repaired decision stays idle -/
+theorem fetchDecisionOld_not_insertable_counterexample :
+    fetchDecisionOld 50 prunedEdgeGate = .ok (.request (288, 799)) ∧
+    checkInsertionConstraints prunedEdgeGate.stored (288, 799) = .error (.noAdjacent (288, 799)) ∧
+    fetchDecision 50 prunedEdgeGate = .ok (.idle .boundPruned) := by
+  refine ⟨rfl, rfl, rfl⟩
 
 /-! ### non-vacuity -/
 
